@@ -330,11 +330,17 @@ theorem ParseEvalCall.quiet {d : Handle} {expr : Expr} {c : Call} (h : ParseEval
   · exact h.evalCall.quiet
 
 /-- ... and such a call is a `fork` only if the rule tree has a `command` condition. -/
-theorem ParseEvalCall.fork {d : Handle} {expr : Expr} (h : ParseEvalCall d expr .fork) : hasCommand expr = true := by
+theorem ParseEvalCall.fork {d : Handle} {expr : Expr} {argv : List Bytes} {s : Handle}
+    (h : ParseEvalCall d expr (.fork argv s)) : hasCommand expr = true := by
   rcases h with h | ⟨h, _⟩ | ⟨_, p, hp⟩
-  · exact absurd rfl h.quiet.2
+  · exact absurd h.quiet.2 (by simp [Call.isFork])
   · exact h
   · cases hp
+
+theorem ParseEvalCall.fork' {d : Handle} {expr : Expr} {c : Call} (h : ParseEvalCall d expr c) (hf : c.isFork = true) :
+    hasCommand expr = true := by
+  obtain ⟨av, s, rfl⟩ := Call.isFork_iff.1 hf
+  exact h.fork
 
 theorem ParseEvalCall.of_asksFree {d : Handle} {expr : Expr} {c : Call} (hf : asksFree expr = true)
     (h : ParseEvalCall d expr c) : ParseCall d c := by
@@ -500,7 +506,7 @@ theorem processMessage_noMatch_run_pure (env : PEnv) (orc : EvalOracles) (expr :
     (orcl : Nat → Call → Res) :
     (∀ x ∈ (runOracle orcl (processMessage env orc expr md name st) 0 []).2,
       ((∃ nm, x.1 = .openRd d nm) ∨ (∃ fd, x.1 = .read fd) ∨ ∃ fd, x.1 = .close fd) ∧
-        x.1.mutating = false ∧ x.1 ≠ .fork) ∧
+        x.1.mutating = false ∧ x.1.isFork = false) ∧
     (∃ L, (runOracle orcl (processMessage env orc expr md name st) 0 []).2 =
         (runOracle orcl (messageParseP d md.path name content) 0 []).2 ++ L ∧ ∀ x ∈ L, ∃ fd, x.1 = .close fd) ∧
     (runOracle orcl (processMessage env orc expr md name st) 0 []).1 =
